@@ -4,7 +4,7 @@
 Require Extraction.
 Require Import ExtrOcamlBasic.
 From Coq Require Import String List.
-From ClasticV Require Import Base.Sx Model.Stats Model.ChainIO Model.DispatchIO Model.MatchIO Model.WorldIO Model.StaticIO Model.MwIO Model.CookieIO Model.ErrorsIO Model.FlawIO Model.RenderIO Model.MetaIO.
+From ClasticV Require Import Base.Sx Model.Stats Model.ChainIO Model.DispatchIO Model.MatchIO Model.WorldIO Model.StaticIO Model.MwIO Model.CookieIO Model.ErrorsIO Model.FlawIO Model.RenderIO Model.MetaIO Model.WsgiIO.
 Local Open Scope string_scope.
 
 Definition dispatch (tag : string) (s : sexp) : sexp :=
@@ -24,6 +24,8 @@ Definition dispatch (tag : string) (s : sexp) : sexp :=
   else if String.eqb tag "flawlab" then run_flawlab s
   else if String.eqb tag "renderlab" then run_renderlab s
   else if String.eqb tag "metalab" then run_metalab s
+  else if String.eqb tag "wsgistack" then run_wsgistack s
+  else if String.eqb tag "wsgimonitor" then run_wsgimonitor s
   else A "UNKNOWN-TAG".
 
 Extraction Blacklist String List Nat Bool.
